@@ -88,6 +88,24 @@ P = {
                   "TraceTxn.tla folds them (legality of each event, result = cache contents, equal sequences) after a FIFO marker barrier.",
              note="Trusted: TLC; the marker barrier (a later event proves the earlier ones were delivered). Buffer overflow and reconnect purges are outside the statement.",
              tech="TLC model checking of Events.tla + TLC trace validation of recorded handler callbacks"),
+ "C12": dict(engine="tla-wire", cat="model_checking", ref="6 C12",
+             text="Wire.tla is a grammar of JSON trees for the 18 wire types (all ten operations with and without optional members, every condition function and "
+                  "mutator, sets, maps, uuids and named uuids over every atomic type, rows, both update formats, monitor requests, selects and replies, results "
+                  "and errors, schemas with every base-type constraint, min/max/unlimited, ephemeral, mutable, isRoot, indexes) and a type-directed meaning "
+                  "relation Eq whose laws TLC checks; every valid encoding of the bounded grammar is decoded, encoded and decoded again by the real codecs and "
+                  "TraceWire.tla demands Eq(encoding, re-encoding) and equal decoded values; error results go through the typed errors and back.",
+             note="Trusted: TLC, the typed-tree rendering of JSON. Values start from decodings of valid encodings; nil and empty collections are one value; in "
+                  "schema-less positions a one-element set is its element. Known finding: integers beyond 2^53.",
+             tech="TLA+ grammar and meaning relation (Wire.tla) + exhaustive enumerate-and-replay through the codecs + TLC trace validation"),
+ "C19": dict(engine="tla-wire", cat="model_checking", ref="6 C19",
+             text="From Wire.tla TLC enumerates every tree one local edit away from a valid encoding (node replaced by junk, element or member dropped, element "
+                  "appended) and every small tree over the keyword atoms; each is handed to the decoders under recover (decoded values are also encoded); "
+                  "corrupted transactions (dropped members, swapped kinds, every arithmetic mutator with 0) run on the transaction engine and as raw requests "
+                  "followed by an echo on a real server, a crash of the process being attributed to the request in flight; TraceWire.tla accepts value/error, "
+                  "results/error and a live server only.",
+             note="Trusted: TLC; encoding/json rejects non-JSON bytes before libovsdb code runs, so trees suffice. Long or deeply nested inputs and coverage-guided "
+                  "byte fuzzing are outside this technique (bounded exhaustive enumeration instead).",
+             tech="TLA+ grammar with a corruption operator (Wire.tla) + exhaustive enumerate-and-replay on decoders, engine and server + TLC trace validation"),
  "C18": dict(engine="tla-locks", cat="model_checking", ref="6 C18",
              text="Locks.tla models the client's mutexes (Go RWMutex semantics incl. writer preference) and each call as a sequence of lock steps; TLC "
                   "checks that no interleaving deadlocks and nothing keeps a lock, for the documented protocol (and refutes the three protocols of the "
@@ -109,6 +127,7 @@ ENGINES = {
  "tla-session": ("spec/Session.tla", "TLA+ model of monitor set-up vs notify/commit (Session.tla), schedules forced with pause points, sessions validated by TraceTxn.tla"),
  "tla-diff": ("spec/Diff.tla", "TLA+ difference algebra and update aggregation (Diff.tla, Merge.tla) + enumerate-and-replay through the updates package"),
  "tla-locks": ("spec/Locks.tla", "TLA+ model of the client's lock protocol, fed both by the documented steps and by steps extracted from client.go; call sequences and gated races on a real client"),
+ "tla-wire": ("spec/Wire.tla", "TLA+ grammar of RFC 7047 JSON notation with meaning relation and corruption operator; codecs, transaction engine and server driven with the enumerated trees"),
  "tla-cache": ("spec/Cache.tla", "TLA+ state machine of the row cache's index maintenance + enumerate-and-replay + TLC trace validation"),
 }
 ALL = ["C%02d" % i for i in range(1, 21)]
